@@ -2,6 +2,7 @@ package core
 
 import (
 	"context"
+	"encoding/json"
 	"errors"
 	"reflect"
 	"testing"
@@ -110,5 +111,36 @@ func TestWitnessJSONPatternParsedTwice(t *testing.T) {
 	}
 	if err := s.Compile(context.Background(), nil, true); err != nil {
 		t.Fatalf("a bare-string pattern given as JSON text does not compile: %v", err)
+	}
+}
+
+// Witness for core.(*Spec).Step/Walk#pre@match.(Bindings).Extendm:plain (C09):
+// the error node's "lastBindings" is stored with the named type
+// match.Bindings, which the matcher does not treat as a map until the state
+// has been through JSON.
+func TestWitnessLastBindingsIsPlainData(t *testing.T) {
+	s := failingSpec(t)
+	w, err := s.Walk(context.Background(), &State{NodeName: "start", Bs: match.Bindings{"a": 1.0}}, nil, DefaultControl, nil)
+	if err != nil {
+		t.Fatal(err)
+	}
+	to := w.To()
+	if to == nil || to.NodeName != "error" {
+		t.Fatalf("want the error node, got %v", to)
+	}
+	pattern := map[string]interface{}{"lastBindings": map[string]interface{}{"a": "?a"}}
+	inMemory, err := match.Match(pattern, map[string]interface{}(to.Bs), match.NewBindings())
+	if err != nil {
+		t.Fatalf("in memory: %v", err)
+	}
+	js, _ := json.Marshal(to.Bs)
+	var reloaded map[string]interface{}
+	json.Unmarshal(js, &reloaded)
+	afterReload, err := match.Match(pattern, reloaded, match.NewBindings())
+	if err != nil {
+		t.Fatalf("reloaded: %v", err)
+	}
+	if len(inMemory) != len(afterReload) {
+		t.Fatalf("bindings branching on lastBindings: %d matches in memory, %d after a JSON round trip", len(inMemory), len(afterReload))
 	}
 }
